@@ -121,7 +121,8 @@ class NICObservation(AbstractObservation, discriminator="network-interface"):
         nic_max_bandwidth = nic_state.get("speed")
 
         bandwidth_utilisation = traffic_value / nic_max_bandwidth
-        return int(bandwidth_utilisation * 9) + 1
+        # links can be faster than the interface's nominal speed: anything above it falls in the top category
+        return min(int(bandwidth_utilisation * 9) + 1, 10)
 
     def _set_nmne_threshold(self, thresholds: List[int]):
         """
